@@ -218,9 +218,10 @@ def simulate_sym(m, stub, mods, its):
     def f(params, cur):
         ds = m.select(nodes=[0]).data_stimulate(cur, None)
         return jx.integrate(m, params=params, data_stimuli=ds, delta_t=0.025, voltage_solver="jaxley.stone")
-    out, it, _ = _enc(f, (P, stim), "jaxley.stone", stub, mods)
-    its.append(it)
-    return sym.to_obj(out)
+    def ENC(fn, *a):
+        out, it, _ = _enc(fn, a, "jaxley.stone", stub, mods); its.append(it); return sym.to_obj(out)
+    from .. import simenc
+    return simenc.Run(f, (P, stim), ENC)
 
 
 def run_instance(inst):
@@ -286,13 +287,10 @@ def run_instance(inst):
             res["inconclusive"].append({"instance": inst, "query": "rebuild", "reason": f"{type(ex).__name__}: {str(ex)[:120]}"})
             b = None
         if b is not None:
-            if a.shape != b.shape:
-                viol("SIM", f"recordings shape {a.shape} vs rebuilt {b.shape}")
-            else:
-                verdict, _ = equiv.decide_equal(list(zip(a.reshape(-1), b.reshape(-1))), "C19/SIM", timeout=timeout, rng=rng, counters=res["counters"])
-                res["counters"][f"SIM_{verdict}"] = 1
-                if verdict == "differs": viol("SIM", "the edited module does not simulate the model displayed by its tables (differs from a module rebuilt from the tables)")
-                elif verdict not in ("structural", "unsat"): res["inconclusive"].append({"instance": inst, "query": "SIM", "reason": verdict})
+            verdict, _ = equiv.decide_runs(a, b, lambda x, y: (equiv.flat(x), equiv.flat(y)), "C19/SIM", timeout=timeout, rng=rng, counters=res["counters"])
+            res["counters"][f"SIM_{verdict}"] = 1
+            if verdict in ("differs", "shape"): viol("SIM", f"the edited module does not simulate the model displayed by its tables (differs from a module rebuilt from the tables; {verdict})")
+            elif verdict not in ("structural", "unsat"): res["inconclusive"].append({"instance": inst, "query": "SIM", "reason": verdict})
     # ---------------- UNDO pairs appended to the history
     if inst.get("undo") is not None:
         op, inv = [tuple(o) for o in inst["undo"]]
@@ -313,11 +311,9 @@ def run_instance(inst):
                 if len(mm.recordings) == 0: mm.select(nodes=[len(mm.nodes) - 1]).record("v", verbose=False)
             try:
                 x = simulate_sym(m1, stub, [m1, m2], its); y = simulate_sym(m2, stub, [m1, m2], its)
-                if x.shape != y.shape: viol("UNDO_sim", f"shapes {x.shape} vs {y.shape}")
-                else:
-                    verdict, _ = equiv.decide_equal(list(zip(x.reshape(-1), y.reshape(-1))), "C19/UNDO", timeout=timeout, rng=rng, counters=res["counters"])
-                    res["counters"][f"UNDO_sim_{verdict}"] = 1
-                    if verdict == "differs": viol("UNDO_sim", f"{op[0]} followed by {inv[0]} changes the simulation", {"pair": op[0] + "/" + inv[0]})
+                verdict, _ = equiv.decide_runs(x, y, lambda p_, q_: (equiv.flat(p_), equiv.flat(q_)), "C19/UNDO", timeout=timeout, rng=rng, counters=res["counters"])
+                res["counters"][f"UNDO_sim_{verdict}"] = 1
+                if verdict in ("differs", "shape"): viol("UNDO_sim", f"{op[0]} followed by {inv[0]} changes the simulation ({verdict})", {"pair": op[0] + "/" + inv[0]})
             except Exception as ex:
                 viol("UNDO_sim", f"integrate raises after {op[0]} + {inv[0]}: {type(ex).__name__}: {str(ex)[:120]}", {"pair": op[0] + "/" + inv[0], "error": type(ex).__name__})
     res["functions"] = sorted(set().union(*[i.functions for i in its])) if its else []
